@@ -125,7 +125,7 @@ def run(ctx):
         lines = []
         for i in range(i0, min(i0 + 5, len(b.runs))):
             lines += b.run_lines(i)
-        idx = [i for i, l in enumerate(lines[:-2]) if '"ev":"rem"' in l and '"found":1' in l and '"ev":"reset"' not in lines[i + 1]]
+        idx = [i for i, l in enumerate(lines[:-2]) if '"ev":"remend"' in l and '"found":1' in l and '"ev":"reset"' not in lines[i + 1]]
         i = idx[len(idx) // 2]
         e = json.loads(lines[i])
         e["ids"] = list(reversed(e["ids"])) if len(e["ids"]) > 1 else e["ids"] + [e["id"]]
